@@ -169,7 +169,7 @@ func execDedup(f []string) vlib.Res {
 			return vlib.Res{Impl: "bad-op"}
 		}
 		res := dd.burst(f[2], vlib.Atoi(f[3]), vlib.Atoi(f[4]), vlib.Atoi(f[5]), f[6], time.Duration(vlib.Atoi(f[7]))*time.Millisecond)
-		if strings.HasPrefix(res.Oracle, "FAIL") {
+		if strings.HasPrefix(res.Oracle, "FAIL") && !strings.Contains(res.Oracle, "sig=dedup/no-reply/expired-in-ingress-queue") {
 			// real time on a shared machine: a verdict counts only if it reproduces
 			first := res.Oracle
 			waitFor(3*time.Second, dd.l.Srv.Quiesced)
@@ -275,7 +275,7 @@ func (e *ddEnv) burst(label string, nUDP, nTCP, nMsg int, cancel string, stagger
 	}
 	wg.Wait()
 
-	fail := ""
+	fail, known := "", ""
 	bad := func(sig, detail string) {
 		if fail == "" {
 			fail = fmt.Sprintf("FAIL sig=%s %s", sig, detail)
@@ -290,8 +290,11 @@ func (e *ddEnv) burst(label string, nUDP, nTCP, nMsg int, cancel string, stagger
 			continue
 		case len(c.replies) == 0:
 			if e.workers > 0 && c.kind == "udp" && (verb == "hang" || verb == "stuck" || delay >= e.qto/2) {
-				// candidate finding (notes/C11.md): expired while parked in the ready queue
-				bad("dedup/no-reply/expired-in-ingress-queue", fmt.Sprintf("%s name=%s id=%d", where, name, c.id))
+				// KNOWN finding (notes/C11.md, known_findings.jsonl): expired while parked in
+				// the ready queue; lowest priority, never masks another failure of this op
+				if known == "" {
+					known = fmt.Sprintf("FAIL sig=dedup/no-reply/expired-in-ingress-queue %s name=%s id=%d", where, name, c.id)
+				}
 				continue
 			}
 			bad("dedup/no-reply/"+c.kind, fmt.Sprintf("%s name=%s id=%d", where, name, c.id))
@@ -328,10 +331,16 @@ func (e *ddEnv) burst(label string, nUDP, nTCP, nMsg int, cancel string, stagger
 	calls := e.byName[name]
 	e.mu.Unlock()
 	or := "ok"
+	tagk := ""
 	if fail != "" {
 		or = fail
+	} else if known != "" {
+		or = known
 	}
-	return vlib.Res{Impl: "done", Oracle: or, Tags: fmt.Sprintf("nt,q=%d,noerror=%d,servfail=%d,stubcalls=%d,maxlat_ms=%d", len(cs), nOK, nSF, calls, e.maxLat.Milliseconds())}
+	if known != "" {
+		tagk = ",known-queue-expiry"
+	}
+	return vlib.Res{Impl: "done", Oracle: or, Tags: fmt.Sprintf("nt,q=%d,noerror=%d,servfail=%d,stubcalls=%d,maxlat_ms=%d", len(cs), nOK, nSF, calls, e.maxLat.Milliseconds()) + tagk}
 }
 
 var _ = context.Background
